@@ -2012,7 +2012,7 @@ func (p *wat2cWorker) buildFunc_ins(w io.Writer, fn *ast.Func, stk *valueTypeSta
 		sp0 := stk.Pop(token.F32)
 		sp1 := stk.Pop(token.F32)
 		ret0 := stk.Push(token.F32)
-		fmt.Fprintf(w, "%sR%d.f32 = fminf(R%d.f32, R%d.f32); // %s\n",
+		fmt.Fprintf(w, "%sR%d.f32 = F_MIN(R%d.f32, R%d.f32); // %s\n",
 			indent, ret0, sp1, sp0,
 			insString(i),
 		)
@@ -2020,7 +2020,7 @@ func (p *wat2cWorker) buildFunc_ins(w io.Writer, fn *ast.Func, stk *valueTypeSta
 		sp0 := stk.Pop(token.F32)
 		sp1 := stk.Pop(token.F32)
 		ret0 := stk.Push(token.F32)
-		fmt.Fprintf(w, "%sR%d.f32 = fmaxf(R%d.f32, R%d.f32); // %s\n",
+		fmt.Fprintf(w, "%sR%d.f32 = F_MAX(R%d.f32, R%d.f32); // %s\n",
 			indent, ret0, sp1, sp0,
 			insString(i),
 		)
@@ -2117,7 +2117,7 @@ func (p *wat2cWorker) buildFunc_ins(w io.Writer, fn *ast.Func, stk *valueTypeSta
 		sp0 := stk.Pop(token.F64)
 		sp1 := stk.Pop(token.F64)
 		ret0 := stk.Push(token.F64)
-		fmt.Fprintf(w, "%sR%d.f64 = fmin(R%d.f64, R%d.f64); // %s\n",
+		fmt.Fprintf(w, "%sR%d.f64 = F_MIN(R%d.f64, R%d.f64); // %s\n",
 			indent, ret0, sp1, sp0,
 			insString(i),
 		)
@@ -2125,7 +2125,7 @@ func (p *wat2cWorker) buildFunc_ins(w io.Writer, fn *ast.Func, stk *valueTypeSta
 		sp0 := stk.Pop(token.F64)
 		sp1 := stk.Pop(token.F64)
 		ret0 := stk.Push(token.F64)
-		fmt.Fprintf(w, "%sR%d.f64 = fmax(R%d.f64, R%d.f64); // %s\n",
+		fmt.Fprintf(w, "%sR%d.f64 = F_MAX(R%d.f64, R%d.f64); // %s\n",
 			indent, ret0, sp1, sp0,
 			insString(i),
 		)
